@@ -23,9 +23,19 @@ def last(v):
     return v[-1] if hasattr(v, '__len__') else v
 
 
-def h_agree(ctx, name='sma', n=6, variant=0, source_type=None):
+def h_agree(ctx, name='sma', n=6, variant=0, source_type=None, edge=False):
     set_window()
     kw, sig = indh.lowered_params(name, variant)
+    if edge:
+        # boundary: the shortest period equals the number of candles the single-value branch works on (exactly enough data)
+        ints = [k for k, v in kw.items() if isinstance(v, int) and not isinstance(v, bool)]
+        if not ints:
+            ctx.event('no-period-parameter')
+            return
+        lo = min(kw[k] for k in ints)
+        for k in ints:
+            if kw[k] == lo:
+                kw[k] = min(n, WARM)
     if 'sequential' not in sig.parameters:
         ctx.event('no-sequential-parameter')
         return
@@ -95,6 +105,12 @@ def _jobs(tier):
             jobs.append(Job('ind_%s_n%d' % (nm, n), h_agree, {'name': nm, 'n': n, 'variant': 0},
                             {'max_paths': cap, 'max_job_seconds': tcap, 'max_decisions': 3000, 'stop_on_error': True, 'max_path_seconds': 8 if tier == 'quick' else 120,
                              'prove_timeout_ms': 3000 if tier == 'quick' else 20000, 'feas_timeout_ms': 2000}))
+    # boundary parameter set: the shortest period equals the amount of data (5 candles; 8 candles cut to the window of 6)
+    for nm in names:
+        for n in ((5, 8) if tier == 'quick' else (4, 6, 9)):
+            jobs.append(Job('ind_%s_edge_n%d' % (nm, n), h_agree, {'name': nm, 'n': n, 'variant': 0, 'edge': True},
+                            {'max_paths': 60 if tier == 'quick' else 1000, 'max_job_seconds': 6 if tier == 'quick' else 120, 'max_decisions': 3000, 'stop_on_error': True,
+                             'max_path_seconds': 8 if tier == 'quick' else 120, 'prove_timeout_ms': 3000 if tier == 'quick' else 20000, 'feas_timeout_ms': 2000}))
     if tier != 'quick':
         for src in ('high', 'low', 'open', 'volume', 'hl2', 'hlc3', 'ohlc4'):
             for nm in ('sma', 'ema', 'wma', 'rsi', 'stddev', 'roc'):
